@@ -79,13 +79,14 @@ def cpp_driver(shps):
     src.append("  auto arg = [](std::string const& t) { return std::stoi(t.substr(1, t.find(':') == std::string::npos ? std::string::npos : t.find(':') - 1)); };")
     src.append("  auto flag = [](std::string const& t) { return t.back() == '1'; };")
     for k, shp in enumerate(shps):
-        src.append(f"  if (k == {k} && kind == \"W\") {{ W{k} w; int32_t v = 1; std::vector<int32_t> vs{{1, 2}}; for (size_t n = 0; n < toks.size(); n++) {{ try {{")
+        src.append(f"  if (k == {k} && kind == \"W\") {{ W{k} w; int32_t v = 1; std::vector<int32_t> vs{{1, 2}}; std::vector<int32_t> ve; for (size_t n = 0; n < toks.size(); n++) {{ try {{")
         src.append("      char c = toks[n][0]; int i = c == 'c' ? -1 : arg(toks[n]);")
         src.append("      if (c == 'c') w.Close();")
         for i, stm in enumerate(shp):
             src.append(f"      else if (c == 'w' && i == {i}) w.WriteS{i}(v);")
             if stm:
                 src.append(f"      else if (c == 'b' && i == {i}) w.WriteS{i}(vs);")
+                src.append(f"      else if (c == 'z' && i == {i}) w.WriteS{i}(ve);")
                 src.append(f"      else if (c == 'e' && i == {i}) w.EndS{i}();")
         src.append("      else throw std::runtime_error(\"no such method\");")
         src.append("    } catch (std::exception const&) { reject = (int)n; break; } } }")
@@ -137,7 +138,8 @@ for line in sys.stdin:
                     w.close()
                 else:
                     i = int(tok[1:])
-                    getattr(w, f"write_s{i}")([1, 2] if shapes[k][i] else 1)
+                    arg = 1 if not shapes[k][i] else [] if tok[0] == "z" else (x for x in [1]) if tok[0] == "g" else [1, 2]
+                    getattr(w, f"write_s{i}")(arg)
             except Exception:
                 reject = n
                 break
@@ -211,9 +213,13 @@ def gen_seq(rng, machine, shape, length):
     return seq
 
 
-def tok(machine, op):
+def tok(machine, op, shape=None, rr=None):
+    """the token sent to the driver; with `rr`, *how* a stream write is made varies (single value / batch / empty batch / generator): the state machine
+    does not depend on it - an empty batch is still a call to that step"""
     if op[0] == "c":
         return "c"
+    if rr is not None and op[0] == "w" and shape is not None and shape[op[1]]:
+        return rr.choice("wbz" if machine == "cppW" else "wzg") + str(op[1])
     if machine == "cppR" and op[0] in ("r", "B"):
         return f"{op[0]}{op[1]}:{1 if op[2] else 0}"
     return f"{op[0]}{op[1]}"
@@ -333,6 +339,18 @@ def run(report, tier, seed):
                     want = -1 if m["reject"] is None else m["reject"]
                     proc, kind = (cpp, machine[-1]) if machine.startswith("cpp") else (py, machine[-1])
                     got = ask(proc, f"{k} {kind} " + " ".join(tok(machine, o) for o in seq))
+                    if machine in ("cppW", "pyW") and any(o[0] == "w" and shape[o[1]] for o in seq if o[0] != "c"):
+                        # the same calls, each stream write made in another way (batch, empty batch, generator)
+                        vr = random.Random(hash(json.dumps(seq)) & 0xffff)
+                        toks = " ".join(tok(machine, o, shape, vr) for o in seq)
+                        got2 = ask(proc, f"{k} {kind} " + toks)
+                        report.count(f"runs.{machine}.write-variants")
+                        if got2 != want:
+                            cls = "accepts-out-of-order" if (want != -1 and (got2 == -1 or got2 > want)) else "rejects-in-order"
+                            report.violation(f"{machine}:{cls}:write-variant", {"machine": machine, "shape": shape if n < 20 else f"{n} steps", "protocol_index": k, "calls": seq,
+                                                                                 "tokens (w single, b batch of two, z empty batch, g generator)": toks,
+                                                                                 "model_first_rejected": want, "generated_code_first_rejected": got2, "seed": seed},
+                                             "how a stream write is made (single value, batch, empty batch, generator) changes whether the call is accepted")
                     report.case(distinct_key=(machine, tuple(shape) if n < 100 else n, json.dumps(seq)) if len(seq) >= 2 else None,
                                 sample={"machine": machine, "shape": shape if n < 10 else f"{n} steps", "calls": seq[:12], "first_rejected": want} if report.evaluations % 3000 == 7 else None)
                     report.count(f"runs.{machine}")
